@@ -44,6 +44,12 @@ where
 {
   pub(crate) subscriptions: HashMap<K, Arc<SubscriberList<K, T>>>,
   pub(crate) receiver_count: AtomicUsize,
+  /// Number of open sender handles (the original plus its clones). Receivers
+  /// are disconnected only when the last one is closed or dropped.
+  pub(crate) sender_count: AtomicUsize,
+  /// Every receiver's mailbox, whatever it is subscribed to: disconnection
+  /// must reach receivers that are not subscribed to any topic at that moment.
+  pub(crate) mailboxes: parking_lot::Mutex<Vec<Weak<mailbox::MailboxProducer<(K, T)>>>>,
 }
 
 impl<K, T> fmt::Debug for SpmcTopicDispatcher<K, T>
@@ -75,6 +81,38 @@ where
     Self {
       subscriptions: HashMap::new(),
       receiver_count: AtomicUsize::new(0),
+      sender_count: AtomicUsize::new(1),
+      mailboxes: parking_lot::Mutex::new(Vec::new()),
+    }
+  }
+
+  /// Records a receiver's mailbox so the last sender leaving can disconnect it.
+  pub(crate) fn register_mailbox(&self, producer: &Arc<mailbox::MailboxProducer<(K, T)>>) {
+    let mut all = self.mailboxes.lock();
+    all.retain(|w| w.strong_count() > 0);
+    all.push(Arc::downgrade(producer));
+    drop(all);
+    // A sender sweep that ran before the push cannot have seen this mailbox.
+    if self.sender_count.load(Ordering::SeqCst) == 0 {
+      producer.disconnect();
+    }
+  }
+
+  /// One more sender handle (clone).
+  pub(crate) fn add_sender(&self) {
+    self.sender_count.fetch_add(1, Ordering::SeqCst);
+  }
+
+  /// A sender handle was closed or dropped; the last one disconnects every
+  /// receiver mailbox.
+  pub(crate) fn release_sender(&self) {
+    if self.sender_count.fetch_sub(1, Ordering::SeqCst) == 1 {
+      let all = self.mailboxes.lock();
+      for mailbox_weak in all.iter() {
+        if let Some(mailbox_strong) = mailbox_weak.upgrade() {
+          mailbox_strong.disconnect();
+        }
+      }
     }
   }
 }
